@@ -699,3 +699,80 @@ SEQOF_COMPONENTS_N = Contract(
     note='collections without a wrap type (open types: bounded contract)')
 SEQOF_COMPONENTS_N.empty_list = _chunk_list
 CONTRACTS = CONTRACTS + [SEQOF_COMPONENTS_N]
+
+
+# ---- REAL, binary form in base 2 (X.690 8.5.7): first octet, two's complement exponent, unsigned mantissa ------------------------
+def _real_value(ex, env):
+    m0, e0 = env['m0'], env['e0']
+    return Obj('Real', {'isPlusInf': False, 'isMinusInf': False, 'binEncBase': None},
+               {'__iter__': lambda ex2, self: Tup([m0, 2, e0])}, name='value')
+
+
+def _choose_base(ex, self, value):
+    """callee RealEncoder._chooseEncBase / _dropFloatingPoint for an integral mantissa and the default base 2 (contract
+    below): sign, magnitude, base 2, exponent unchanged"""
+    m0, e0 = ex.env['m0'], ex.env['e0']
+    return Tup([_z3.If(m0 < 0, _z3.IntVal(-1), _z3.IntVal(1)), _z3.If(m0 < 0, -m0, m0), 2, e0])
+
+
+REAL_ENC = Contract(
+    id='ber.encoder::RealEncoder.encodeValue[binary,base-2]', file=F, qual='RealEncoder.encodeValue', properties=['C01', 'C03', 'C09'],
+    params=dict(m0=PInt(), e0=PInt(), self=PObj('RealEncoder', methods={'_chooseEncBase': _choose_base}), value=PDerived(_real_value),
+                asn1Spec=PConst(None), encodeFun=PConst(None), options=POptions()),
+    requires=['m0 != 0'],
+    loops={0: Loop(entry_ghosts={'mag': 'm', 'exp0': 'e'},
+                   invariant=['m > 0', 'e >= exp0', 'm * X.pow2f(e - exp0) == mag'], variant='m',
+                   hints=['X.lemma_pow2_step(iter_old(e) - exp0)']),
+           3: Loop(entry_ghosts={'mant': 'm', 'expn': 'e'}, invariant=['sf == 0', 'm % 2 == 1', 'm > 0', 'm == mant', 'e == expn'],
+                   variant='m'),
+           4: Loop(invariant=['isinstance(eo, bytes)', 'X.inr(eo)', 'X.sdigits(expn) == X.cat(X.sdigits(e), eo)', 'm == mant',
+                              '(e >= 0) == (expn >= 0)'],
+                   variant='e if e >= 0 else -1 - e', hints=['X.lemma_sdigits_step(iter_old(e))']),
+           5: Loop(invariant=['isinstance(po, bytes)', 'X.inr(po)', 'm >= 0', 'X.be256(mant) == X.cat(X.be256(m), po)'],
+                   variant='m', hints=['X.lemma_be256_step(iter_old(m))'])},
+    ensures=[
+        ('primitive', 'result[1] is False and result[2] is True'),
+        # the mantissa is made odd by moving its factors of two into the exponent: the value is unchanged
+        ('same-value-odd-mantissa', 'mant % 2 == 1 and mant > 0 and mant * X.pow2f(expn - e0) == (m0 if m0 > 0 else -m0) and expn >= e0'),
+        # first octet: binary (bit 8), sign (bit 7), base 2 (bits 6-5 = 00), scale factor 0 (bits 4-3), exponent length code
+        ('first-octet', 'result[0][0] == 128 + (64 if m0 < 0 else 0) + (len(eo) - 1 if len(eo) <= 3 else 3)'),
+        # exponent: two's complement, as few octets as possible (one for 0 and -1)
+        ('exponent-octets', 'len(eo) <= 3 ==> X.sub(result[0], 1, 1 + len(eo)) == eo'),
+        ('exponent-is-minimal-twos-complement',
+         '(expn == 0 or expn == -1) ==> (len(eo) == 1 and eo[0] == expn % 256)'),
+        ('exponent-digits', '(expn != 0 and expn != -1 and len(X.sdigits(expn)) >= 1 and ((expn > 0) == (X.sdigits(expn)[0] < 128)) and len(X.sdigits(expn)) <= 3) ==> eo == X.sdigits(expn)'),
+        ('exponent-digits-with-count', '(expn != 0 and expn != -1 and len(X.sdigits(expn)) >= 1 and ((expn > 0) == (X.sdigits(expn)[0] < 128)) and len(X.sdigits(expn)) > 3) ==> '
+                                       'eo == X.cat(X.seq(len(X.sdigits(expn))), X.sdigits(expn))'),
+        # ... with one more octet (00 / FF) when the leading digit would read as the other sign
+        ('exponent-sign-octet', '(expn != 0 and expn != -1 and len(X.sdigits(expn)) >= 1 and ((expn > 0) != (X.sdigits(expn)[0] < 128)) and len(X.sdigits(expn)) <= 2) ==> '
+                                'eo == X.cat(X.seq(0 if expn > 0 else 255), X.sdigits(expn))'),
+        ('exponent-sign-octet-with-count', '(expn != 0 and expn != -1 and len(X.sdigits(expn)) >= 1 and ((expn > 0) != (X.sdigits(expn)[0] < 128)) and len(X.sdigits(expn)) > 2) ==> '
+                                           'eo == X.cat(X.seq(len(X.sdigits(expn)) + 1, 0 if expn > 0 else 255), X.sdigits(expn))'),
+        # mantissa: unsigned big-endian, no leading zero octet
+        ('mantissa-octets', 'po == X.be256(mant) and X.sub(result[0], len(result[0]) - len(po), len(result[0])) == po')],
+    hints=['X.lemma_sdigits_base()'],
+    may_raise={'PyAsn1Error': True},
+    note='integral mantissa, default base (binEncBase = 2); sdigits is the digit recursion of two\'s complement, cross-checked '
+         'against int.to_bytes(signed=True) on sample points by pyvc.selfcheck')
+CONTRACTS = CONTRACTS + [REAL_ENC]
+
+
+# ---- REAL: re-basing the binary exponent to base 8 / 16 keeps the value (integral mantissa) --------------------------------------
+DROP_FP = Contract(
+    id='ber.encoder::RealEncoder._dropFloatingPoint[integral-mantissa]', file=F, qual='RealEncoder._dropFloatingPoint',
+    properties=['C01', 'C03', 'C09'],
+    params=dict(m=PInt(), encbase=POneOf(2, 8, 16), e=PInt()),
+    globals={'mag': FnV(lambda ex, v: _z3.If(toint(v) < 0, -toint(v), toint(v)), 'mag')},
+    requires=['m != 0'],
+    loops={0: Loop(unroll=True)},
+    ensures=[
+        ('sign-and-base', 'result[0] == (-1 if old(m) < 0 else 1) and result[2] == encbase'),
+        # X.690 8.5.7: value = mantissa x base^exponent; with base = 2^bits the binary exponent splits into
+        # bits x (new exponent) + k, 0 <= k < bits, and the mantissa takes the factor 2^k -- exactly, whatever its size
+        ('base-2-unchanged', 'encbase == 2 ==> (result[1] == mag(old(m)) and result[3] == old(e))'),
+        ('base-8-same-value', 'encbase == 8 ==> (0 <= old(e) - 3 * result[3] and old(e) - 3 * result[3] < 3 and '
+                              'result[1] == mag(old(m)) * X.pow2f(old(e) - 3 * result[3]))'),
+        ('base-16-same-value', 'encbase == 16 ==> (0 <= old(e) - 4 * result[3] and old(e) - 4 * result[3] < 4 and '
+                               'result[1] == mag(old(m)) * X.pow2f(old(e) - 4 * result[3]))')],
+    note='integral mantissas (a float mantissa goes through the multiply-until-integral loop: outside the modelled subset)')
+CONTRACTS = CONTRACTS + [DROP_FP]
